@@ -299,7 +299,9 @@ func (f *formatter) writeFileHeader() {
 
 		f.writeImport(importNode, i > 0)
 	}
-	sort.Slice(optionNodes, func(i, j int) bool {
+	// The sort must be stable: options with the same name (a repeated option
+	// set more than once) must keep their relative order, which is their meaning.
+	sort.SliceStable(optionNodes, func(i, j int) bool {
 		// The default options (e.g. cc_enable_arenas) should always
 		// be sorted above custom options (which are identified by a
 		// leading '(').
